@@ -711,7 +711,37 @@ def family_Q(tier):
     yield emit('shadow-same-block', [('def', 'x', 'Int', I(1), False), ('print', var('x')), ('def', 'x', 'Str', lit_str("s"), False), ('print', var('x'))], ['shadowing'])
 
 
-FAMILIES = {'Q': family_Q, 'T': family_T, 'E': family_E, 'R': family_R, 'K': family_K, 'F': family_F, 'A': family_A, 'O': family_O, 'H': family_H}
+def family_S(tier):
+    """scoping bases: a definition local to every kind of block, followed by uses after the blocks (C04 renames those uses
+    to each block-local name; the program itself is an ordinary member of the pool)"""
+    I = lit_int
+    raiser = [('class', 'SE', [('msg', 'Str', False)], [('Exception', [var('msg')])], []),
+              ('fun', 'sr', [('n', 'Int', None)], 'Int', ['SE'], [('if', ('bin', '>', var('n'), I(5)), [('raise', ('new', 'SE', [lit_str("r")]))], None), ('expr', var('n'))], 'block'),
+              ('fun', 'show', [('x', 'Int', None)], 'Int', [], [('expr', var('x'))])]
+
+    def body(p):
+        return [('def', 'a', 'Int', ('bin', '+', p, I(1)), False),
+                ('if', ('bin', '>', p, I(5)), [('def', 'tl', 'Int', I(5), False), ('print', var('tl'))], [('def', 'el', 'Int', I(6), False), ('print', var('el'))]),
+                ('if', ('bin', '>', p, I(5)), [('def', 'ol', 'Int', I(8), False), ('print', var('ol'))], None),
+                ('for', 'i', ('range', I(0), I(2), False, None), [('def', 'fl', 'Int', var('i'), False), ('print', var('fl'))]),
+                ('def', 'k', 'Int', I(0), False),
+                ('while', ('bin', '<', var('k'), I(1)), [('aug', '+', var('k'), I(1)), ('def', 'wl', 'Int', var('k'), False), ('print', var('wl'))]),
+                ('match', p, [(I(1), [('def', 'ml', 'Int', I(1), False), ('print', var('ml'))]), ('_', [('print', I(0))])]),
+                ('handle', ('expr', ('call', 'sr', [p])), [('he', 'SE', [('def', 'hl', 'Int', I(9), False), ('print', var('hl'))])]),
+                ('print', ('call', 'show', [var('a')])),
+                ('def', 'z', 'Int', var('a'), False),
+                ('print', var('z'))]
+
+    yield {"id": "S1", "family": "S.fun-locals", "tags": ['scoping'],
+           "prog": raiser + [('fun', 'g', [('p', 'Int', None)], 'Int', [], body(var('p')) + [('expr', var('a'))], 'block'), ('print', ('call', 'g', [I(1)])), ('print', ('call', 'g', [I(7)]))]}
+    yield {"id": "S2", "family": "S.method-locals", "tags": ['scoping'],
+           "prog": raiser + [('class', 'Sc', [], [], [('fun', 'g', [('p', 'Int', None)], 'Int', [], body(var('p')) + [('expr', var('a'))], 'block')]),
+                             ('def', 'so', None, ('new', 'Sc', []), False), ('print', ('mcall', var('so'), 'g', [I(1)])), ('print', ('mcall', var('so'), 'g', [I(7)]))]}
+    for pv in (1, 7):
+        yield {"id": "S%d" % (2 + pv), "family": "S.top-locals", "tags": ['scoping', 'p:%d' % pv], "prog": raiser + [('def', 'p', 'Int', I(pv), False)] + body(var('p'))}
+
+
+FAMILIES = {'S': family_S, 'Q': family_Q, 'T': family_T, 'E': family_E, 'R': family_R, 'K': family_K, 'F': family_F, 'A': family_A, 'O': family_O, 'H': family_H}
 
 
 def materialise(case):
@@ -721,7 +751,7 @@ def materialise(case):
     return case
 
 
-def pool(tier, families="ERKFAOHTQ"):
+def pool(tier, families="ERKFAOHTQS"):
     for f in families:
         for case in FAMILIES[f](tier):
             yield materialise(case)
